@@ -329,6 +329,14 @@ def canon(t):
             return fmt(*x[1])
         if k == "call" and x[1] in (("global", "os.fspath"), ("global", "six.text_type"), ("global", "os.fsdecode")) and len(x[2]) == 1 and not x[3]:
             return x[2][0]       # the string form of a path: the identity on the strings the properties speak about
+        if k == "call" and x[1] == ("global", "hasattr") and len(x[2]) == 2 and x[2][1] == ("const", "__fspath__"):
+            return ("const", False)      # the properties speak about paths given as strings: a str is not os.PathLike
+        if k == "call" and x[1] == ("global", "getattr") and len(x[2]) == 3 and x[2][1] == ("const", "__fspath__") and x[2][2][0] == "const":
+            return x[2][2]
+        if k == "cmp" and len(x[1]) == 1 and x[1][0] in ("is", "is not") and x[2][0][0] == "const" and x[2][1][0] == "const" \
+                and (x[2][0][1] is None or x[2][1][1] is None):
+            same = x[2][0][1] is None and x[2][1][1] is None
+            return ("const", same if x[1][0] == "is" else not same)
         if k == "cmp" and len(x[1]) == 1 and x[1][0] in ("is", "is not") and ("const", None) in x[2]:
             other = [y for y in x[2] if y != ("const", None)]
             if other and other[0][0] == "global" and "." in other[0][1] and other[0][1].split(".")[0] in _STDLIB_ROOTS:
